@@ -344,8 +344,8 @@ func (g *goGen) lit(t types.Type, term string, depth int, emit bool) string {
 				return "nil"
 			}
 			ln, _ := sxInt(g.mq.vals[lenT])
-			if ln > 1<<16 {
-				g.fail = "slice too long"
+			if ln > 1<<16 || ln < 0 {
+				g.fail = "slice length out of range"
 				return "nil"
 			}
 			var b []byte
@@ -382,6 +382,10 @@ func (g *goGen) lit(t types.Type, term string, depth int, emit bool) string {
 			return "nil"
 		}
 		ln, _ := sxInt(g.mq.vals[lenT])
+		if ln < 0 {
+			g.fail = "slice length out of range"
+			return "nil"
+		}
 		if ln > maxElems || (ln > 0 && len(elems) == 0) {
 			// more elements than the model is asked for: pad with zero values
 			if ln > 64 {
@@ -792,6 +796,12 @@ func (c *clauseGen) firstResult(name string, a []string) string {
 // ---- driver ----
 
 func tryReplay(eng *Engine, verif string, o *Oblig, r *ReplayRecord) {
+	defer func() {
+		if rec := recover(); rec != nil {
+			r.Reproduced = false
+			r.Observed = fmt.Sprintf("replay generation failed: %v", rec)
+		}
+	}()
 	if o.fn == nil || (o.Result != "sat" && !o.candidate) {
 		r.Observed = "no model (solver answered " + o.Result + ")"
 		return
